@@ -164,11 +164,11 @@ class SmtLibCommand(namedtuple('SmtLibCommand', ['name', 'args'])):
         elif self.name == smtcmd.DEFINE_FUN:
             name = self.args[0]
             params_list = self.args[1]
-            params = " ".join(["(%s %s)" % (v, v.symbol_type().as_smtlib(funstyle=False)) for v in params_list])
+            params = " ".join(["(%s %s)" % (quote(v.symbol_name()), v.symbol_type().as_smtlib(funstyle=False)) for v in params_list])
             rtype = self.args[2]
             expr = self.args[3]
             outstream.write("(%s %s (%s) %s " % (self.name,
-                                                name,
+                                                quote(name),
                                                 params,
                                                 rtype.as_smtlib(funstyle=False)))
             printer.printer(expr)
